@@ -106,6 +106,30 @@ theorem left_join_size [DecidableEq κ] (kl : α → κ) (kr : β → κ) (L : L
     rw [Nat.succ_mul]
     omega
 
+/-- … and the sharp one when the key is unique on the *right*: a LEFT OUTER join then returns exactly one row per left row
+(so the bound `max(|L|, |R|)` that `Join::size` declares is sound for that orientation — the recorded finding is the other one). -/
+theorem left_join_size_unique_right [DecidableEq κ] (kl : α → κ) (kr : β → κ) (L : List α) (R : List β) (h : (R.map kr).Nodup) :
+    (leftJoinOn kl kr L R).length = L.length := by
+  induction L with
+  | nil => simp [leftJoinOn]
+  | cons a t ih =>
+    simp only [leftJoinOn, List.flatMap_cons, List.length_append, List.length_cons] at *
+    have h1 := filter_key_le_one kr R h (kl a)
+    have hlen : (if (R.filter fun b => kl a == kr b).isEmpty then [(a, (none : Option β))]
+        else (R.filter fun b => kl a == kr b).map fun b => (a, some b)).length = 1 := by
+      split
+      · simp
+      · rename_i hne
+        simp only [List.length_map]
+        have : (R.filter fun b => kl a == kr b).length ≠ 0 := by
+          intro h0; exact hne (by simp [List.length_eq_zero_iff.mp h0])
+        omega
+    omega
+
+theorem left_join_unique_right_within_declared [DecidableEq κ] (kl : α → κ) (kr : β → κ) (L : List α) (R : List β) (h : (R.map kr).Nodup) :
+    (leftJoinOn kl kr L R).length ≤ joinSizeUnique L.length R.length := by
+  rw [left_join_size_unique_right kl kr L R h]; unfold joinSizeUnique; omega
+
 /-- Non-vacuity: OFFSET beyond the input. -/
 example : mapRows (fun (x : Nat) => x > 1) (some 5) (some 2) [1, 2, 3] = [] ∧ mapSizeMax 3 (some 5) (some 2) = 0 := by decide
 
